@@ -218,3 +218,17 @@ PROPS["C08"] = {
         {"name": "c08.iq", "engine": "rapid", "quick": R(8, 30000), "thorough": R(16, 600000)},
     ],
 }
+
+PROPS["C12"] = {
+    "binary": "c12_roster",
+    "level": "exploration",
+    "technique": "stateful model-based property testing (rapidcheck): generated session/roster/presence histories against the real roster manager on a socketless client, compared with a reference model after every step",
+    "level_text": ("Histories of up to 30 steps over connect (new with / without stream management, resumed), answer to the pending roster request (items or error), roster pushes from nine sender kinds, presence of eight types from any resource, disconnect (resumable or not) over a six-JID universe; "
+                   "after every step the exposed bare JIDs, each entry (through its serialisation), the received flag and the per-contact resource lists equal the reference model, item signals match model deltas one-to-one, authorised pushes are acknowledged exactly once and unauthorised ones never."),
+    "level_note": "Trusted: the reference model in harness/c12_roster.cpp. 'Own account or server' = no from, or a from whose bare JID is the own bare JID (RFC 6121 2.1.6 as implemented; the bare server domain is not accepted by the library and is modelled as unauthorised). The socketless harness keeps the stream's ack manager switched on in every session so that packets count as sent; the XEP-0198 state the managers see is set separately.",
+    "rule": "Non-trivial: the history contains an unauthorised push for an item that is in the view, or a new (non-resumed) session started while a previous view existed. Distinct = the history text.",
+    "assumptions": ["presence types other than available/unavailable do not change the presence table (the quantifier names only those two)"],
+    "subs": [
+        {"name": "c12.roster", "engine": "rapid", "quick": R(8, 15000), "thorough": R(16, 800000)},
+    ],
+}
